@@ -337,11 +337,13 @@ theorem exchangeX_obs (R : Resolver) : ∀ (steps : List Step) (outs : List Step
     | cons o os =>
       obtain ⟨hs, hr⟩ := h
       obtain ⟨i1, i2, i3⟩ := (obs_eq_iff _ _).1 (ih os hr)
-      have failCase : ∀ e, stepOut true s = .fail [.err e] → o = plainOut (stepOut true s) →
-          Http.exchangeAllX R (o :: os) = [errEv e] := by
-        intro e he ho
+      have failCase : ∀ (a : List Log) e, stepOut true s = .fail (logItems a ++ [.err e]) → o = plainOut (stepOut true s) →
+          Http.exchangeAllX R (o :: os) = Sem.lg a ++ [errEv e] := by
+        intro a e he ho
         rw [ho, he]
-        simp [plainOut, Http.exchangeAllX, Http.exchangeOneX, Http.readExchangeX]
+        simp only [plainOut, Http.exchangeAllX, Http.exchangeOneX, plain_fail]
+        rw [readExchangeX_logs]
+        simp [Http.readExchangeX]
       cases hact : s.act with
       | emit b =>
         have hso : stepOut true s = .cont (logItems s.logs ++ [Item.data b] ++ logItems s.post) := by
@@ -361,27 +363,31 @@ theorem exchangeX_obs (R : Resolver) : ∀ (steps : List Step) (outs : List Step
           all_goals simp [← Sem.lg.eq_1, Engine.Aux.lg_append] <;> (try obs_simp)
         · exact absurd h2.1 (by simp)
       | finish =>
-        have hso : stepOut true s = .fail [.err finishOnExchangeExn] := by simp [stepOut, processExchangeStep, hact]
+        have hso : stepOut true s = .fail (logItems (s.logs ++ s.post) ++ [.err finishOnExchangeExn]) := by
+          simp [stepOut, processExchangeStep, hact, logItems]
         rcases hs with h1 | ⟨q, b', hR, h2 | h2⟩
-        · rw [failCase _ hso h1]; simp [Sem.exchange, hact, Sem.failLogs]
+        · rw [failCase _ _ hso h1]; simp [Sem.exchange, hact, Sem.failLogs, Engine.Aux.lg_append]
         · rw [hact] at h2; cases h2.1
         · exact absurd h2.1 (by simp)
       | emitFinish b =>
-        have hso : stepOut true s = .fail [.err finishOnExchangeExn] := by simp [stepOut, processExchangeStep, hact]
+        have hso : stepOut true s = .fail (logItems (s.logs ++ s.post) ++ [.err finishOnExchangeExn]) := by
+          simp [stepOut, processExchangeStep, hact, logItems]
         rcases hs with h1 | ⟨q, b', hR, h2 | h2⟩
-        · rw [failCase _ hso h1]; simp [Sem.exchange, hact, Sem.failLogs]
+        · rw [failCase _ _ hso h1]; simp [Sem.exchange, hact, Sem.failLogs, Engine.Aux.lg_append]
         · rw [hact] at h2; cases h2.1
         · exact absurd h2.1 (by simp)
       | raise e =>
-        have hso : stepOut true s = .fail [.err e] := by simp [stepOut, processExchangeStep, processStep, hact]
+        have hso : stepOut true s = .fail (logItems s.logs ++ [.err e]) := by
+          simp [stepOut, processExchangeStep, processStep, hact]
         rcases hs with h1 | ⟨q, b', hR, h2 | h2⟩
-        · rw [failCase _ hso h1]; simp [Sem.exchange, hact, Sem.failLogs]
+        · rw [failCase _ _ hso h1]; simp [Sem.exchange, hact, Sem.failLogs]
         · rw [hact] at h2; cases h2.1
         · exact absurd h2.1 (by simp)
       | nothing =>
-        have hso : stepOut true s = .fail [.err noDataExn] := by simp [stepOut, processExchangeStep, processStep, hact]
+        have hso : stepOut true s = .fail (logItems s.logs ++ [.err noDataExn]) := by
+          simp [stepOut, processExchangeStep, processStep, hact]
         rcases hs with h1 | ⟨q, b', hR, h2 | h2⟩
-        · rw [failCase _ hso h1]; simp [Sem.exchange, hact, Sem.failLogs]
+        · rw [failCase _ _ hso h1]; simp [Sem.exchange, hact, Sem.failLogs]
         · rw [hact] at h2; cases h2.1
         · exact absurd h2.1 (by simp)
 
